@@ -13,7 +13,7 @@ RULE = ('each event is Fq::sqrt, Fq2::sqrt or a compressed-point decode; Some(s)
 
 
 def cases(tier, seed):
-    n = 160 if tier == 'quick' else 40000
+    n = 800 if tier == 'quick' else 40000
     return [('mix', 30)] * n
 
 
